@@ -14,7 +14,7 @@ RULE = ('histories of 2-6 saves into one file over 4 root names: whole trees by 
         'non-trivial = distinct histories with at least two trees in the file at the end')
 MODELLED = ['payload templates with content tokens', 'ndarray/dict/Metadata inputs are modelled by the roots write() wraps them in']
 ASSUMPTIONS = ['distinct root names; list items with distinct names; rooted list items are direct children of their root']
-RN = ['r1', 'r2', 'r3', 'r4']
+RN = ['r1', 'r2', '_tmp_r1', 'r4']      # '_tmp_r1': a root called like the scratch name of another root
 
 
 def cases(seed, tier):
